@@ -651,6 +651,18 @@ impl Group {
         key_tag: u16,
         cache: &SigCache,
     ) -> bool {
+        // Whether a signature is inside its validity period depends on the
+        // current time and must not be answered from the cache: a cached
+        // positive result would keep an expired signature valid (and a
+        // cached negative one a not yet valid signature invalid) for as
+        // long as the entry lives.
+        let ts_now = Timestamp::now();
+        if ts_now.canonical_gt(&sig.data().expiration())
+            || ts_now.canonical_lt(&sig.data().inception())
+        {
+            return false;
+        }
+
         let mut signed_data = Vec::<u8>::new();
         sig.data()
             .signed_data(&mut signed_data, &mut self.rr_set())
